@@ -331,6 +331,28 @@ def _buffers (ctx, repo):
           good = (isinstance(v, ast.Subscript) and norm(v.value) == 'self.receive_buf' and isinstance(v.slice, ast.Slice) and v.slice.upper is None and v.slice.lower is not None) or _emptied_when_all_consumed(f, st, 'self.receive_buf')
           ctx.ob('R-OWN', f, "`%s` drops a prefix only" % norm(st), good, "suffix slice" if good else "%s rewrites the receive buffer" % f.qual, (iom, st), 'D1')
   ctx.floor('switch-side buffer writers', n, 4)
+  # the sockets are non-blocking and a receive is made once per readiness notification; a second recv() in the same invocation
+  # finds nothing whenever the pending data ended exactly at the previous read, and the resulting EAGAIN must then be harmless
+  for owner, fname in ((iow, '_do_recv'), (con, 'read')):
+    rf = owner.find_method(fname)
+    if rf is None: continue
+    gr = q.cfg_of(rf)
+    rcv = gr.nodes_with_call(lambda c: call_name(c) in ('recv', 'recv_into', 'recvfrom') and ('sock' in norm(c.func.value)))
+    for n_ in rcv:
+      in_loop = any(n_ in gr.loop_body_nodes(h_) for st_, h_, a_ in gr.loop_nodes)
+      if not in_loop:
+        ctx.ob('R-EFFECT', rf, "one receive per readiness notification (`%s`)" % n_.text(40), True, "recv outside any loop", (owner.module, n_.ast), 'D7'); continue
+      hs = gr.handlers_for(n_)
+      tolerant = False
+      for h in hs:
+        txt = " ".join(norm(x) for x in ast.walk(h.ast) if isinstance(x, ast.Compare))
+        if 'EAGAIN' in txt or 'EWOULDBLOCK' in txt: tolerant = True
+      for t_ in gr.try_of.get(n_, ()):
+        for h in t_.handlers:
+          if h.type is not None and ('BlockingIOError' in norm(h.type)): tolerant = True
+      ctx.ob('R-EFFECT', rf, "a repeated receive tolerates 'nothing more to read' (`%s`)" % n_.text(40), tolerant, "EAGAIN handled" if tolerant else
+             "recv() is called repeatedly in one invocation and no handler distinguishes EAGAIN/EWOULDBLOCK: when the pending bytes are an exact multiple of the read size the extra recv raises, the error path closes the connection and every later message is lost",
+             (owner.module, n_.ast), 'D7')
   crb = q.find_method(repo, iow, 'consume_receive_buf', 'C02'); ctx.analysed(crb)
   st = [s_ for t, v, s_, k in q.stores_in(crb.node) if norm(t) == 'self.receive_buf']
   good = bool(st) and all(norm(x.value) == 'self.receive_buf[%s:]' % crb.params[1] or _emptied_when_all_consumed(crb, x, 'self.receive_buf', crb.params[1]) for x in st) \
